@@ -31,6 +31,7 @@
 #include <float.h>
 
 #include "pixman-compiler.h"
+#include "pixman-verif.h"
 
 /*
  * Images
